@@ -125,8 +125,23 @@ def run(db, chk):
             sub_in_closure.append((k, a, b, ln))
         if k.cfg.calls_named("str>::parse", "str::<impl str>::parse"):
             parse_in_closure.append(k)
-    chk.ob(R, "parse-u64", len(parse_in_closure) == 1 and "parse::<u64>" in (parse_in_closure[0].cfg.calls_named("::parse")[0][1].get("full") or ""),
-           "the version text is parsed as u64", pv.loc())
+    # every u64 parse in parse_version receives the name's leading component (the text before the first '.') AS IS: detached
+    # names `d<number>.manifest` are kept out of version discovery only because that text then fails to parse, so the text
+    # must not go through anything that could remove the prefix (strip_prefix, trim_*, slicing, replace ...)
+    fam = [pv] + list(pv.children())
+    parses = [(k, b, t) for k in fam for b, t in k.cfg.calls_named("str>::parse", "str::<impl str>::parse") if "parse::<u64>" in (t.get("full") or "")]
+    PASS_THROUGH = ("split_once", "Try>::branch", "Option::<T>::and_then", "Option::<T>::map", "Option::<T>::ok_or", "Deref>::deref", "AsRef", "Borrow")
+    okp = bool(parses)
+    detail = []
+    for k, b, t in parses:
+        o = k.cfg.op_origins(t["args"][0], transparent=lambda t: True)
+        via = sorted({x[1] for x in o if x[0] in ("via", "call") and x[1]})
+        foreign = [v for v in via if not any(p in v for p in PASS_THROUGH)]
+        from_name = ("arg", 2) in o or any("split_once" in v for v in via)
+        okp = okp and from_name and not foreign
+        detail.append("line %s: from the split name: %s, went through: %s" % (t["ln"], from_name, foreign or "nothing"))
+    chk.ob(R, "parse-u64", okp, "every parse::<u64> in parse_version takes the text before the first '.' unmodified (%d site(s): %s)" % (len(parses), "; ".join(detail)),
+           pv.loc())
     okinv = len(sub_in_closure) == 1 and sub_in_closure[0][1].get("v") == U64MAX and op_place(sub_in_closure[0][2]) is not None
     chk.ob(R, "parse-v2-inverts-with-MAX", okinv, "V2 parse maps n to u64::MAX - n (same constant as manifest_path): %s" % (
         [(a, b) for _, a, b, _ in sub_in_closure]), pv.loc())
